@@ -15,6 +15,21 @@ import (
 // Root is the framework's directory.
 var Root = "/verif"
 
+// Developer overrides, used only by tools/seedpar to try a seeded change in a
+// scratch worktree without touching /repo (registered commands never set them).
+var (
+	RepoDir     = envOr("VERIF_REPO", "/repo")
+	HarnessDir  = envOr("VERIF_HARNESS", Root+"/harness")
+	EvidenceDir = envOr("VERIF_EVIDENCE", Root+"/evidence")
+)
+
+func envOr(k, d string) string {
+	if v := os.Getenv(k); v != "" {
+		return v
+	}
+	return d
+}
+
 // Candidate is a disagreement between the specification and the real code.
 type Candidate struct {
 	Family string          `json:"family"`
@@ -283,8 +298,18 @@ func (r *Run) Finish() int {
 		ev["infra"] = r.infra
 	}
 	b, _ := json.MarshalIndent(ev, "", " ")
-	os.WriteFile(filepath.Join(Root, "evidence", r.ID+".json"), append(b, '\n'), 0o644)
-	os.RemoveAll(r.Out)
+	os.WriteFile(filepath.Join(EvidenceDir, r.ID+".json"), append(b, '\n'), 0o644)
+	if os.Getenv("VERIF_KEEP") == "" {
+		os.RemoveAll(r.Out)
+	}
+	// working directories of executor children that died mid-request
+	if ds, _ := filepath.Glob(filepath.Join(Root, "out", "hz*")); len(ds) > 0 {
+		for _, d := range ds {
+			if fi, err := os.Stat(d); err == nil && time.Since(fi.ModTime()) > 10*time.Minute {
+				os.RemoveAll(d)
+			}
+		}
+	}
 	switch {
 	case violations > 0:
 		return 1
